@@ -1088,6 +1088,7 @@ class SyncObj(object):
         self.__connectedNodes.discard(node)
         self.__raftNextIndex.pop(node, None)
         self.__raftMatchIndex.pop(node, None)
+        self.__serializer.cancelTransmisstion(node)
         node._destroy()
 
     def __onNodeConnected(self, node):
@@ -1095,6 +1096,8 @@ class SyncObj(object):
 
     def __onNodeDisconnected(self, node):
         self.__connectedNodes.discard(node)
+        # a snapshot transfer that was under way must start again from its first piece after a reconnect
+        self.__serializer.cancelTransmisstion(node)
 
     def __getCurrentLogIndex(self):
         return self.__raftLog[-1][1]
